@@ -745,6 +745,74 @@ def check_atom(ctx, cfg, rec, B: Bucket, report, tag, axis_today=True):
         if finite(ys):
             B.case(f"qrows_close {tol_q} (rad_comps_q {gname} {fname}) {dyll(ys)}", (f"spline_data:{which}", cfg, trep))
 
+    # ---------------------------------------------------------------- histories on the same grid object
+    # The property speaks about the function values handed over at each call.  Callers refresh one value buffer in place
+    # between calls (vals[:] = ..., vals *= 2) or pass views of a larger buffer; every call must decompose the CURRENT
+    # contents: same array object refreshed in place, scaled in place, a view refreshed through its base.
+    mask0 = np.ones(info.N, dtype=bool)
+    for i in range(n):
+        if info.r[i] == 0.0:
+            mask0[info.idx[i]:info.idx[i + 1]] = False     # the second table is not single-valued at the centre
+
+    def comps_of(call, arr):
+        rec.reset()
+        res = call(arr)
+        return res, (np.array([s_[1] for s_ in rec.splines]) if rec.splines else np.zeros((0, n)))
+
+    def hist_check(step, ys, cf_expected, fname):
+        ctx.case(("history", key0, step))
+        exp = np.zeros((K, n))
+        exp[:Kf] = np.asarray(cf_expected).T
+        if ys.shape != (K, n) or not finite(ys) or not close(ys, exp, scale * 2):
+            d = np.abs(np.nan_to_num(ys, nan=1e30) - exp) if ys.shape == (K, n) else np.ones((1, 1))
+            k, i = np.unravel_index(int(np.argmax(d)), d.shape)
+            orep("components_recovered", f"history:{step}", float(ys[k, i]) if ys.shape == (K, n) else str(ys.shape),
+                 f"history on one AtomGrid [{step}]: radial component row {k} at shell {i}: value handed to the spline "
+                 f"{float(ys[k, i]) if ys.shape == (K, n) else ys.shape!r}, g_lm(r_i) of the CURRENT buffer contents = {float(exp[k, i]) if ys.shape == (K, n) else None!r}",
+                 {"history": step, "row": int(k), "shell": int(i)})
+        elif fname is not None:
+            B.case(f"qrows_close {tol_q} (rad_comps_q {gname} {fname}) {dyll(ys)}", (f"spline_data:history-{step}", cfg, trep))
+
+    try:
+        buf = fv.copy()
+        _, ys = comps_of(grid.radial_component_splines, buf)
+        hist_check("splines(buf)", ys, coef, None)
+        buf[:] = fvb
+        _, ys = comps_of(grid.radial_component_splines, buf)
+        hist_check("splines(buf); buf[:] = g; splines(buf)", ys, coef_b, f"fb{tag}")
+        buf *= 2.0
+        it2, ys = comps_of(grid.interpolate, buf)
+        hist_check("...; buf *= 2; interpolate(buf)", ys, 2.0 * coef_b, None)
+        st2, got2 = call_closure(it2, info.points, (0, False, False))
+        if st2 != "ok" or got2.shape != (info.N,) or np.max(np.where(mask0, np.abs(np.nan_to_num(got2, nan=1e30) - 2.0 * fvb), 0.0)) > TOL * 4 * max(scale, maxabs(ys)):
+            j = int(np.argmax(np.where(mask0, np.abs(np.nan_to_num(got2, nan=1e30) - 2.0 * fvb), 0.0))) if st2 == "ok" and got2.shape == (info.N,) else 0
+            orep("interpolant_at_grid_points", "history:grid_points", float(got2[j]) if st2 == "ok" and got2.shape == (info.N,) else str(got2)[:80],
+                 f"history on one AtomGrid [splines(buf); buf[:] = g; splines(buf); buf *= 2; interpolate(buf)]: interpolant at grid point {j} "
+                 f"is {float(got2[j]) if st2 == 'ok' and got2.shape == (info.N,) else got2!r}, the buffer holds {float(2.0 * fvb[j])!r} there", {"history": "inplace", "point_index": j})
+        it_same, ys = comps_of(grid.interpolate, buf)
+        hist_check("...; interpolate(buf) again, unchanged", ys, 2.0 * coef_b, None)
+        buf[:] = fv
+        ia_h = np.asarray(grid.integrate_angular_coordinates(buf), dtype=float)
+        rec.reset()
+        grid.spherical_average(buf)
+        ya_h = rec.splines[0][1] if len(rec.splines) == 1 else np.zeros(0)
+        ctx.case(("history", key0, "average"))
+        if not close(ia_h, sq4pi * coef[:, 0], scale) or not close(ya_h, coef[:, 0] / math.sqrt(4 * math.pi), scale):
+            orep("angular_integral_exact", "history:angular", str(ia_h.tolist())[:100],
+                 f"history on one AtomGrid [...; buf[:] = f; integrate_angular_coordinates(buf); spherical_average(buf)]: angular integrals {ia_h.tolist()}, "
+                 f"average data {np.asarray(ya_h).tolist()}, exact sqrt(4 pi) g_00 = {(sq4pi * coef[:, 0]).tolist()}", {"history": "inplace-angular"})
+        big = np.concatenate([fvb, fv, fvb])
+        view = big[info.N:2 * info.N]
+        _, ys = comps_of(grid.radial_component_splines, view)
+        hist_check("splines(view of a larger buffer)", ys, coef, None)
+        big[info.N:2 * info.N] = fvb
+        _, ys = comps_of(grid.radial_component_splines, view)
+        hist_check("splines(view); base[...] = g; splines(same view)", ys, coef_b, None)
+        _, ys = comps_of(grid.interpolate, big[info.N:2 * info.N])
+        hist_check("...; interpolate(new view of the same memory)", ys, coef_b, None)
+    except Exception as e:  # noqa: BLE001
+        orep("components_recovered", "history:exception", type(e).__name__, f"a repeated call on the same AtomGrid with a refreshed buffer raised {type(e).__name__}: {e}")
+
     # ---------------------------------------------------------------- spherical_average
     rec.reset()
     try:
@@ -1142,6 +1210,73 @@ def check_mol(ctx, spec, rec, B: Bucket, report, tag, axis_today=True):
         B.case(f"res_close {tolm} (mol_combine_q [" + "; ".join(parts) + f"]) ({obs})", (f"mol_assemble:{mode}", spec, trep))
 
 
+# ====================================================================== large point sets in one call
+def batch_oracle(ctx, spec, report):
+    """The closure is vectorised over evaluation points: the result for a large array of points must be, entry by entry and
+    in the documented layout (values (M,), Cartesian rows (M, 3), hstack of the three spherical derivative arrays (3M,)),
+    what it returns for the same points handed over in small batches (which the finite-difference / definition oracles of
+    check_atom cover).  spec: {"cfg", "M", "full"}."""
+    cfg, M = spec["cfg"], int(spec["M"])
+    key0 = "batch:" + json.dumps({"M": M, "cfg": cfg}, separators=(",", ":"), sort_keys=True)
+    rp0 = {"kind": "batch", "spec": spec}
+    grid = build_atgrid(cfg)
+    info = GridInfo(cfg, grid)
+    fv = info.band_values(cfg["coef"])
+    it = grid.interpolate(fv.copy())
+    rs = np.random.RandomState(cfg["pseed"] % (2 ** 31))
+    P = info.centre + rs.uniform(-1.25, 1.25, size=(M, 3)) * float(info.r[-1])
+    P[:3] = info.centre + np.array([[0.0, 0.0, 0.0], [0.0, 0.0, 0.5], [0.25, 0.0, 0.0]])
+    if spec.get("full"):
+        sample = np.arange(M)
+    else:
+        sample = np.unique(np.concatenate([np.arange(min(M, 1500)), np.arange(max(0, M - 1500), M), rs.choice(M, size=min(M, max(2000, M // 12)), replace=False)]))
+    ctx.count(f"batch_points={M}")
+    for mode in [(0, False, False), (1, True, False), (1, False, True), (2, False, True), (1, False, False)]:
+        ctx.case(("batch", key0, mode))
+        st, out = call_closure(it, P.copy(), mode)
+        # reference: the same points in batches of 997
+        ref = []
+        ok_ref = True
+        for a in range(0, len(sample), 997):
+            s1, o1 = call_closure(it, P[sample[a:a + 997]].copy(), mode)
+            if s1 != "ok":
+                ok_ref = False
+                break
+            ref.append(o1)
+        what = f"batch:{mode}"
+        if st != "ok" or not ok_ref:
+            report(M, "closure_modes", f"{what}:{key0}", str(out)[:100], f"closure on {M} points, mode (deriv, spherical, radial)={mode}: {st} {str(out)[:100]}", dict(rp0, what=what))
+            continue
+        m = len(sample)
+        if mode == (1, True, False):
+            shape_ok = out.shape == (3 * M,)
+            big_parts = [out[c * M:(c + 1) * M][sample] for c in range(3)] if shape_ok else None
+            ref_parts = [np.concatenate([o.reshape(3, -1)[c] for o in ref]) for c in range(3)]
+        elif mode == (1, False, False):
+            shape_ok = out.shape == (M, 3)
+            big_parts = [out[sample, c] for c in range(3)] if shape_ok else None
+            ref_parts = [np.concatenate([o[:, c] for o in ref]) for c in range(3)]
+        else:
+            shape_ok = out.shape == (M,)
+            big_parts = [out[sample]] if shape_ok else None
+            ref_parts = [np.concatenate(ref)]
+        if not shape_ok:
+            report(M, "closure_modes", f"{what}:{key0}", str(out.shape), f"closure on {M} points, mode {mode}: result has shape {out.shape}", dict(rp0, what=what))
+            continue
+        for c, (a, b) in enumerate(zip(big_parts, ref_parts)):
+            fin = np.isfinite(b)
+            sc = max(1.0, maxabs(b[fin])) if np.any(fin) else 1.0
+            d = np.where(fin, np.abs(np.nan_to_num(a, nan=1e30) - np.nan_to_num(b)), 0.0)
+            if len(a) != m or np.max(d) > 1e-9 * sc:
+                j = int(np.argmax(d))
+                comp = (("d/dr", "d/dtheta", "d/dphi") if mode[1] else ("d/dx", "d/dy", "d/dz"))[c] if mode[0] == 1 and not mode[2] else f"deriv={mode[0]}"
+                report(M, "closure_modes" if mode != (1, True, False) else "derivatives_consistent_spherical", f"{what}:{key0}", float(a[j]),
+                       f"one call with {M} points, mode (deriv, spherical, radial)={mode}: the entry for point {int(sample[j])} ({comp}) is {float(a[j])!r}; "
+                       f"the closure returns {float(b[j])!r} for the same point when it is evaluated in a batch of 997 points",
+                       dict(rp0, what=what, point_index=int(sample[j]), component=c, expected=float(b[j])))
+                break
+
+
 # ====================================================================== run
 def plan(ctx: Ctx):
     rng = ctx.rng
@@ -1174,7 +1309,13 @@ def plan(ctx: Ctx):
             c["center"] = [str(Fraction(rng.randint(-12, 12), 4)) for _ in range(3)]
             atoms.append(c)
         mols.append({"atoms": atoms, "aim_form": rng.choice(["array", "array", "callable"]), "pseed": rng.randrange(2 ** 30)})
-    return cfgs, mols
+    batches = []
+    shapes = [(15, 80000, False)] if ctx.quick else [(15, 80000, True), (7, 300000, False), (31, 24000, False), (11, 150000, False)]
+    for deg, M, full in shapes:
+        c = make_config(rng, "lebedev", "uniform", lead=rng.choice(["zero", "none"]))
+        c["degrees"] = [deg]
+        batches.append({"cfg": c, "M": M, "full": full})
+    return cfgs, mols, batches
 
 
 def run(ctx: Ctx):
@@ -1200,21 +1341,33 @@ def run(ctx: Ctx):
     buckets = []
     try:
         validate_spline_hypotheses(ctx, ctx.rng, report)
-        cfgs, mols = plan(ctx)
+        cfgs, mols, batches = plan(ctx)
         reproduced = axis_witnesses(ctx, report)
         ctx.cov["axis_witnesses_reproduced"] = reproduced
         axis_today = "+z" in reproduced or "centre" in reproduced
+        def guarded(kind, payload_key, payload, fn):
+            """an exception of the implementation inside a case is a failure of that case with its concrete input"""
+            try:
+                fn()
+            except Exception as e:  # noqa: BLE001
+                import traceback
+
+                report(0, "case_raises", f"exception:{kind}:" + json.dumps(payload, separators=(",", ":"), sort_keys=True, default=str), type(e).__name__,
+                       f"{kind} case raised {type(e).__name__}: {e}", {"kind": kind, payload_key: payload, "what": "exception", "traceback": traceback.format_exc()[-1500:]})
+
         for t, cfg in enumerate(cfgs):
             B = Bucket(f"C09_case_{t}.v")
-            check_atom(ctx, cfg, rec, B, report, t, axis_today)
+            guarded("atom", "cfg", cfg, lambda: check_atom(ctx, cfg, rec, B, report, t, axis_today))
             buckets.append(B)
             if t < 4:
                 ctx.sample({"r": cfg["r"], "w": cfg["w"], "degrees": cfg["degrees"], "method": cfg["method"], "center": cfg["center"],
                             "rotate": cfg["rotate"], "L": cfg["L"], "coef_shell0": cfg["coef"][0], "mode": cfg["mode"]})
         for t, spec in enumerate(mols):
             B = Bucket(f"C09_mol_{t}.v")
-            check_mol(ctx, spec, rec, B, report, t, axis_today)
+            guarded("mol", "spec", spec, lambda: check_mol(ctx, spec, rec, B, report, t, axis_today))
             buckets.append(B)
+        for bspec in batches:
+            guarded("batch", "spec", bspec, lambda: batch_oracle(ctx, bspec, report))
     finally:
         ag.CubicSpline = old
 
@@ -1241,8 +1394,12 @@ def run(ctx: Ctx):
             if dep[0]:
                 continue
             found = False
-        per[ob] = per.get(ob, 0) + 1
-        if per[ob] > MAXREP:
+        if found and ctx.is_known(key, obs):
+            ctx.fail(ob, key, obs, text, rp, found_input=True)      # a listed finding never uses up the quota of its kind
+            continue
+        cls_key = f"{ob}|{str((rp or {}).get('what', '')).split(':')[0]}"
+        per[cls_key] = per.get(cls_key, 0) + 1
+        if per[cls_key] > MAXREP:
             continue
         if found:
             ctx.fail(ob, key, obs, text, rp, found_input=True)
@@ -1260,7 +1417,10 @@ def run(ctx: Ctx):
                        "either single-valued at the centre or defined through the canonical angles there; a second table exercises the cached basis and the "
                        "stacked (2, N) input; 14-16 evaluation points per grid (centre, both polar half-axes, coordinate planes, beyond the last shell, grid "
                        "points, random dyadic) x 8 call modes; molecular grids with 1, 2 and 3 centres (a one-centre molecule in every run), random dyadic aim weights "
-                       "(not identically one) passed as an array or as a callable, arbitrary (not band-limited) function values, 6 call modes; distinct = (grid, routine / mode); every observed array is compared inside Coq with the model at "
+                       "(not identically one) passed as an array or as a callable, arbitrary (not band-limited) function values, 6 call modes; per grid a history on "
+                       "the same object (one value buffer refreshed / scaled in place between radial_component_splines / interpolate / spherical_average calls, "
+                       "views refreshed through their base); one call with 8e4 .. 3e5 evaluation points per run compared entry by entry, in all layouts, with "
+                       "the same points in batches of 997; distinct = (grid, routine / mode); every observed array is compared inside Coq with the model at "
                        "exact rationals and, independently, with the property's own oracle")
     ctx.cov["constants_from_source"] = consts
     ctx.cov["atomic_grids"] = len(cfgs)
@@ -1298,7 +1458,7 @@ class _FakeCtx:
 def replay(rp):
     print(json.dumps({k: v for k, v in rp.items() if k not in ("traceback", "coq_log_tail")}, indent=1, default=str)[:3500])
     kind = rp.get("kind")
-    if kind not in ("atom", "mol", "witness"):
+    if kind not in ("atom", "mol", "witness", "batch"):
         print("reproduce:", rp.get("reproduce", "(see text)"))
         return 0
     got = []
@@ -1315,8 +1475,12 @@ def replay(rp):
             check_atom(ctx, rp["cfg"], rec, Bucket("replay"), report, 0)
         elif kind == "mol":
             check_mol(ctx, rp["spec"], rec, Bucket("replay"), report, 0)
+        elif kind == "batch":
+            batch_oracle(ctx, rp["spec"], report)
         else:
             axis_witnesses(ctx, report)
+    except Exception as e:  # noqa: BLE001
+        got.append(("case_raises", type(e).__name__, f"the case raises {type(e).__name__}: {e}"))
     finally:
         ag.CubicSpline = old
     for ob, obs, text in got:
